@@ -151,16 +151,25 @@ example : decodeData tmpl false 2 (bitsA ++ bitsB) = .ok ([outA, outB], []) ∧ 
     outA.links = [(9, 2)] := by
   refine ⟨?_, ?_, ?_, ?_, ?_, ?_, ?_⟩ <;> decide +kernel
 
+namespace C07ex
+/-- one element, `223000 101001 031031`, one substituted value -/
+def tmplC : List Desc := [.elem (e 1001 4), .op 223000, .fixedRep 101001 [.elem bit], .op 223255]
+def outC : SubsetOut :=
+  { descs := [.plain (e 1001 4), .oper 223000, .plain bit, .marker 223255 (e 1001 4)],
+    vals := [.int 3, .int 0, .int 0, .int 7], links := [(3, 0)] }
+/-- two equal subsets, compressed: every column is minimum + increment width 0 -/
+def bitsC : Bits := toBits 4 3 ++ toBits 6 0 ++ [false] ++ toBits 6 0 ++ toBits 4 7 ++ toBits 6 0
+end C07ex
+
 open C07ex in
-/-- compressed: the run of Props/C07Spec.lean as a one-subset compressed message of the same template is not
-    needed — a compressed message of two equal subsets of `tmpl2`'s shape decodes with shared links -/
-example : ∃ outs, decodeData [.elem (e 1001 4), .op 223000, .fixedRep 101001 [.elem bit], .op 223255] true 2
-      (toBits 4 3 ++ toBits 6 0 ++ [false] ++ toBits 6 0 ++ toBits 4 7 ++ toBits 6 0) = .ok (outs, []) ∧
-    outs.length = 2 ∧ (∀ o ∈ outs, o.links = [(3, 0)]) ∧
-    Spec.WFlinks [.elem (e 1001 4), .op 223000, .fixedRep 101001 [.elem bit], .op 223255] := by
-  refine ⟨[{ descs := [.plain (e 1001 4), .oper 223000, .plain bit, .marker 223255 (e 1001 4)],
-             vals := [.int 3, .int 0, .int 0, .int 7], links := [(3, 0)] },
-           { descs := [.plain (e 1001 4), .oper 223000, .plain bit, .marker 223255 (e 1001 4)],
-             vals := [.int 3, .int 0, .int 0, .int 7], links := [(3, 0)] }], ?_, ?_, ?_, ?_⟩ <;> decide +kernel
+/-- compressed, decoder and encoder: a two-subset message meeting the hypotheses of `C07_links_eq_spec_compressed`
+    and `C07_encoder_links_eq_spec_compressed` (template `WFlinks`, items of the first subset `markersOk`), with a
+    zero bit, a marker value and the link 3 ↦ 0 shared by both subsets -/
+example : decodeData tmplC true 2 bitsC = .ok ([outC, outC], []) ∧ [outC, outC].head? = some outC ∧
+    Spec.WFlinks tmplC ∧ Spec.markersOk (outC.descs.zip outC.vals) = true ∧
+    encodeData tmplC true [outC.vals, outC.vals] = .ok ([outC, outC], bitsC) ∧
+    Spec.markersOk (outC.descs.zip ([outC.vals, outC.vals].headD [])) = true ∧
+    outC.links = Spec.links (outC.descs.zip outC.vals) [] := by
+  refine ⟨?_, ?_, ?_, ?_, ?_, ?_, ?_⟩ <;> decide +kernel
 
 end Bufr
